@@ -33,8 +33,19 @@ ASSUMPTIONS = [
     "model: its result `keep` is evaluated by the harness with the implementation's own shapes; the oracle re-derives it "
     "exactly (interval overlap in Fractions) for axis-aligned rectangles only",
     "cut-outs: an incoming element that keeps no incoming lanelet or no successor, an intersection that keeps no incoming and a "
-    "sign / light that no kept lanelet references count as 'selected for removal' (the narrower reading of the sentence); "
-    "left_of, adjacent_areas and TrafficSign.first_occurrence are not among the relations the property lists",
+    "sign / light that no kept lanelet references count as 'selected for removal' (the narrower reading of the sentence); this "
+    "reading exists twice — py_selection() here and Op.sel?B in CRModel/Refs.lean (the vocabulary of C10_present_run) — and "
+    "the two are compared on every step of every history",
+    "left_of, adjacent_areas and TrafficSign.first_occurrence are not among the relations the property lists; observation "
+    "(not demanded, counted in the bucket obs:left_of-dangling-after-cut_out, Lean witness C10_witness_leftOf_dangles, corpus "
+    "lean_example_cut_124_leftof.json): create_from_lanelet_network copies left_of verbatim, so a kept incoming element can "
+    "name an incoming element the cut-out dropped",
+    "well-formed start network = no dangling reference + stop-line refs covered by the lanelet + pairwise different ids (what "
+    "Scenario.add_objects enforces); the 15% malformed histories are outside it and feed the correspondence only "
+    "(C10_noNewDangling_* and C10_frame_* still apply to them in the model)",
+    "scenario-level removals are modelled as in the repaired tree (look-up in the network first, KeyError without any change "
+    "when the element is not there); stale objects whose id is still in Scenario._id_set are generated "
+    "(bucket stale:id-still-in-pool)",
 ]
 TRUSTED = ["harness/c10.py snapshot(): reads every id-valued attribute through the public accessors; the content of an element "
            "(geometry, types, markings, sign elements, light cycle) is compared through a SHA-1 digest of those attributes"]
@@ -42,7 +53,7 @@ REQUIRED_BUCKETS = ["net_remove_lanelet", "net_remove_sign", "net_remove_light",
                     "scn_remove_signs", "scn_remove_lights", "scn_remove_inter", "cut_out", "from_list",
                     "cut:shape", "cut:types", "cut:incoming-dropped", "cut:intersection-dropped", "cut:sign-dropped",
                     "hanging:sign-removed", "hanging:sign-kept-shared", "lanelet-ref-cleaned", "adjacency-cleaned",
-                    "stopline-ref-cleaned", "intersection-ref-cleaned", "error:key", "stream:wf", "stream:malformed"]
+                    "stopline-ref-cleaned", "intersection-ref-cleaned", "error:key", "stale:id-still-in-pool", "stream:wf", "stream:malformed"]
 
 TYPES = ["URBAN", "HIGHWAY", "BUS_LANE", "SIDEWALK", "CROSSWALK", "INTERSECTION"]
 CELL_W, CELL_H, LANE_H = 10, 4, 3
@@ -169,9 +180,9 @@ def gen_case(ctx):
                 continue
             ids = some(alive_l, 1, 3)
             y = r.random()
-            if y < 0.06 and dead_l:
+            if y < 0.10 and dead_l:
                 ids.append(r.choice(dead_l))            # a stale object: KeyError
-            elif y < 0.12:
+            elif y < 0.16:
                 ids.append(ids[0])                      # the same object twice: KeyError
             single = len(ids) == 1 and r.random() < 0.5
             ref = r.random() < 0.8
@@ -190,7 +201,7 @@ def gen_case(ctx):
             if not al:
                 continue
             ids = some(al, 1, 2)
-            if r.random() < 0.08 and de:
+            if r.random() < 0.15 and de:
                 ids.append(r.choice(de))
             single = len(ids) == 1 and r.random() < 0.5
             ops.append({"op": k, "ids": ids, "single": single})
@@ -203,11 +214,15 @@ def gen_case(ctx):
             if x in alive_i:
                 alive_i.remove(x); dead_i.append(x)
         elif k == "scn_remove_inter":
-            if not alive_i:
+            if not alive_i and not dead_i:
                 continue
-            x = r.choice(alive_i)
+            if not alive_i:
+                ops.append({"op": k, "x": r.choice(dead_i)})
+                continue
+            x = r.choice(alive_i + (dead_i if r.random() < 0.2 else []))   # sometimes a stale object
             ops.append({"op": k, "x": x})
-            alive_i.remove(x); dead_i.append(x)
+            if x in alive_i:
+                alive_i.remove(x); dead_i.append(x)
         elif k == "cut_out":
             y = r.random()
             if y < 0.25:
@@ -399,7 +414,16 @@ class Impl:
     def __init__(self, case):
         self.case = case
         self.scn = build(case)
-        self.grave = {"l": {}, "s": {}, "t": {}, "i": {}}   # objects that have been removed (handed in again as stale objects)
+        self._remember()
+
+    def _remember(self):
+        """every object of the network, by id: after a removal (scenario level or network level) the object can be handed in
+        again as a stale object"""
+        ln = self.scn.lanelet_network
+        self.grave = {"l": {int(o.lanelet_id): o for o in ln.lanelets},
+                      "s": {int(o.traffic_sign_id): o for o in ln.traffic_signs},
+                      "t": {int(o.traffic_light_id): o for o in ln.traffic_lights},
+                      "i": {int(o.intersection_id): o for o in ln.intersections}}
 
     @property
     def ln(self):
@@ -461,8 +485,7 @@ class Impl:
             o = self._obj("i", op["x"])
             if o is None:
                 return None
-            return call(self.scn.remove_intersection, o), {"op": k, "x": int(o.intersection_id),
-                                                          "incs": [int(c.incoming_id) for c in o.incomings]}
+            return call(self.scn.remove_intersection, o), {"op": k, "x": int(o.intersection_id)}
         if k == "cut_out":
             keep = self.keep_of(op)
             shape = mk_shape(op["shape"])
@@ -492,7 +515,7 @@ class Impl:
         from commonroad.scenario.scenario import Scenario
         self.scn = Scenario(0.1)
         self.scn.add_objects(ln)
-        self.grave = {"l": {}, "s": {}, "t": {}, "i": {}}
+        self._remember()
 
     def ids(self):
         return sorted(int(i) for i in self.scn._id_set)
@@ -827,11 +850,19 @@ def run_case(ctx, case, with_model=True):
     B = init["net"]
     oracle_on = wf_stream and py_nodangling(B) and py_wf(B)
     for step, op in enumerate(case["ops"]):
+        ids_before = set(impl.ids())
+        present_before = ({l["id"] for l in B["lanelets"]} | {x[0] for x in B["signs"]} | {x[0] for x in B["lights"]}
+                          | {i["id"] for i in B["inters"]})
         r = impl.apply(op)
         if r is None:
             continue
         res, mop = r
         err = None if res[0] == "ok" else res[1]
+        if op["op"].startswith("scn_remove") and err == "key":
+            gone = [x for x in (mop.get("xs") or [a["id"] for a in mop.get("args", [])] or [mop.get("x")])
+                    if x in ids_before and x not in present_before]
+            if gone:
+                ctx.tag("stale:id-still-in-pool")   # removed on network level before: KeyError from the look-up, not from _id_set
         A = snapshot(impl.ln)
         ctx.tag(op["op"])
         if err is not None:
